@@ -155,7 +155,7 @@ H("a64_core_refusal", variant="a64-linux", modules=["rt", "a64dec", "a64_core"],
   cex_schema=[("f", 8, 1), ("entry_bytes", 1, 24), ("value", 1, 1), ("j", 8, 1)])
 
 H("a64_macos_long_jump", variant="a64-macos", modules=["rt", "a64dec", "a64_macos"],
-  covers=["COVER: long form backwards", "COVER: long form forwards", "COVER: short form", "COVER: low 12 bits all ones"],
+  covers=["COVER: long form backwards", "COVER: long form forwards", "COVER: short form", "COVER: low 12 bits maximal"],
   functions=["arm64_codegenerator::maybe_emit_long_jump"],
   symbolic="all word-aligned pc and all word-aligned targets in user space whose pages are within +-4 GiB of pc's page; x0..x30, sp symbolic",
   bounds="none beyond the +-4 GiB reach of ADRP (out-of-reach pairs are outside the claim: the function has no refusal path)",
